@@ -500,8 +500,23 @@ impl Simulation {
                     #[cfg(asynchronix_verif)]
                     crate::verif_hooks::pause_point("step_until:queue_found_idle");
 
-                    // Update the simulation time.
-                    self.time.write(target_time);
+                    // Update the simulation time. The scheduler queue must be
+                    // locked while the time is updated, and inspected again:
+                    // since the lock was released, a scheduler handle on another
+                    // thread may have scheduled an action due before the target
+                    // time, which was validated against the former time.
+                    let scheduler_queue = self.scheduler_queue.lock().unwrap();
+                    let next_is_due = match scheduler_queue.peek() {
+                        Some((key, _)) => key.0 <= target_time,
+                        None => false,
+                    };
+                    if !next_is_due {
+                        self.time.write(target_time);
+                    }
+                    drop(scheduler_queue);
+                    if next_is_due {
+                        continue;
+                    }
                     self.clock.synchronize(target_time);
                     return Ok(());
                 }
